@@ -19,12 +19,14 @@ func init() {
 		Assumptions: []string{
 			"items per RFC 8285 block: up to 3 in full product with CSRC/payload/padding, up to 4 (quick) / 5 (thorough) with reduced other dimensions; one-byte ids {1,2,14} lengths {1,2,3,16}; two-byte ids {1,15,255} lengths {0,1,2,255}; pad runs 1-3; duplicate ids and id-0 bytes with a non-zero length nibble are not generated (RFC leaves the receiver's behaviour open)",
 			"an id-15 terminator followed by ignored bytes is part of the grammar (RFC 8285 4.2 tells the receiver how to treat it); the pinned payload-start behaviour of the library after a terminator is a listed known finding with an exact defect model",
+			"a further scenario: legacy blocks of 16383-65535 words, two-byte blocks of 64 / 255 elements of 254-255 bytes, one-byte blocks of 14 elements with pad runs before every element and up to 40 extra pad words, each followed by all-zero payloads of 0/8/9/24/1300 bytes (content indistinguishable from extension padding) or patterned payloads",
 			"canonical layout = what the reference builder writes for the content without pad items, terminator, extra pad words, with zero padding filler",
 		},
 		Scenarios: []mc.Scenario{
 			{Name: "grammar-3-items-full-product", Tiers: "qt", ShardDepth: 4, Run: func(c *mc.Ctx) { c03Grammar(c, 3, true) }},
 			{Name: "grammar-4-items", Tiers: "qt", ShardDepth: 4, Run: func(c *mc.Ctx) { c03Grammar(c, 4, false) }},
 			{Name: "grammar-5-items", Tiers: "t", ShardDepth: 4, Run: func(c *mc.Ctx) { c03Grammar(c, 5, false) }},
+			{Name: "huge-blocks-and-zero-payloads", Tiers: "qt", ShardDepth: 3, Run: c03Huge},
 			{Name: "accepted-mutations", Tiers: "qt", ShardDepth: 4, Run: c03Mutations},
 		},
 	})
@@ -179,7 +181,54 @@ func (a proj) diff(b proj) string {
 }
 
 func c03Grammar(c *mc.Ctx, maxItems int, full bool) {
-	w := c03Image(c, maxItems, full)
+	c03Check(c, c03Image(c, maxItems, full))
+}
+
+// c03Huge: blocks of 64 KiB and more, the largest two-byte block, long one-byte blocks
+// with interior padding, and payloads that consist of zero bytes.
+func c03Huge(c *mc.Ctx) {
+	w := &ref.Wire{Version: 2, PT: 96, Seq: 7, TS: 8, SSRC: 9, X: true}
+	if c.Bool() {
+		w.CSRC = []uint32{1, 2, 3}
+	}
+	switch c.Pick(4) {
+	case 0:
+		w.Profile = mc.From(c, []uint16{0x1234, 0x0000, 0xFFFF})
+		w.Legacy = fill(4*mc.From(c, []int{16383, 16384, 16385, 32768, 65535}), 0x6D)
+	case 1:
+		w.Profile = ref.ProfileTwoByte
+		n := mc.From(c, []int{64, 255})
+		for i := 1; i <= n; i++ {
+			if i%50 == 0 {
+				w.Items = append(w.Items, ref.Item{Kind: ref.ItemPad, N: 1 + i%3})
+			}
+			w.Items = append(w.Items, ref.Item{Kind: ref.ItemElem, Elem: ref.Elem{ID: uint8(i), Val: fill(255-(i%2), byte(i))}})
+		}
+	case 2:
+		w.Profile = ref.ProfileOneByte
+		variant := c.Pick(3)
+		for i := 1; i <= 14; i++ {
+			w.Items = append(w.Items, ref.Item{Kind: ref.ItemPad, N: 1 + (i+variant)%3})
+			w.Items = append(w.Items, ref.Item{Kind: ref.ItemElem, Elem: ref.Elem{ID: uint8(i), Val: fill(1+(i*5)%16, byte(i))}})
+		}
+		w.ExtraPadWords = c.Pick(3) * 20
+	case 3:
+		w.Profile = mc.From(c, []uint16{ref.ProfileOneByte, ref.ProfileTwoByte})
+		w.Items = []ref.Item{{Kind: ref.ItemElem, Elem: ref.Elem{ID: 3, Val: fill(1+c.Pick(3), 7)}}}
+		w.ExtraPadWords = c.Pick(2)
+	}
+	n := mc.From(c, []int{0, 8, 9, 24, 1300})
+	w.Payload = make([]byte, n) // all zero: indistinguishable from extension padding by content
+	if c.Bool() {
+		w.Payload = fill(n, 0x51)
+	}
+	if c.Bool() {
+		w.PadSize, w.PadFill = 4, 0
+	}
+	c03Check(c, w)
+}
+
+func c03Check(c *mc.Ctx, w *ref.Wire) {
 	img := w.Build()
 	if c.Verbose() {
 		c.Notef("image %s = %s", describeWire(w), hx(img))
